@@ -32,3 +32,16 @@ enum {
 	c18 = Complete<asl::Array<asl::byte> >::size
 };
 }
+
+// member templates are not instantiated by completing the class: name the converting constructors the library offers
+namespace aslverif_inst {
+inline void converting_constructors()
+{
+	asl::Map<int, asl::String> mi;
+	asl::Map<asl::String, asl::String> ms(mi);
+	asl::Map<double, int> md;
+	asl::Map<int, int> mii(md);
+	asl::Dic<asl::String> ds(mi);
+	(void)ms; (void)mii; (void)ds;
+}
+}
